@@ -41,7 +41,7 @@ def reload(t):
 
 @st.composite
 def _case(draw):
-    mode = draw(st.sampled_from(["static-outline", "static-outline", "static-outline", "static-layout", "static-layout", "masters-union", "variable-sparse", "variable-sparse"]))
+    mode = draw(st.sampled_from(["static-outline", "static-outline", "static-outline", "static-layout", "static-layout", "masters-union", "masters-union", "variable-sparse", "variable-sparse"]))
     module = draw(st.sampled_from(["ufoLib2", "defcon"]))
     if mode == "static-outline":
         spec = draw(gen.outline_font(max_glyphs=7))
@@ -108,7 +108,19 @@ def _case(draw):
             lists[0] = [names[0]]
         if set().union(*map(set, lists)) >= set(names):
             lists = [[names[0]]] + [[] for _ in range(nm - 1)]
-        return {"mode": mode, "module": module, "spec": spec, "lists": lists, "amp": draw(st.sampled_from([0.3, 1.0]))}
+        if draw(st.sampled_from([True, True, False])):
+            # a non-exported helper and a pure composite built from it
+            spec["glyphs"].append({"name": "sk", "width": 300, "unicodes": [], "contours": [[[0, 0, "line"], [80, 0, "line"], [40, 200, "line"]]]})
+            spec["glyphs"].append({"name": "skuser", "width": 500, "unicodes": [], "components": [{"base": "sk", "t": [1, 0, 0, 1, 30, 0]}, {"base": names[0], "t": [1, 0, 0, 1, 0, 0]}]})
+            lists[draw(st.integers(0, nm - 1))].append("sk")
+        case = {"mode": mode, "module": module, "spec": spec, "lists": lists, "amp": draw(st.sampled_from([0.3, 1.0]))}
+        un = set().union(*map(set, lists))
+        refs = [(g["name"], j, c["base"]) for g in spec["glyphs"] if g["name"] not in un and not g.get("contours") for j, c in enumerate(g.get("components", []))
+                if c["base"] in un and not any(h["name"] == c["base"] and h.get("components") for h in spec["glyphs"])]
+        if refs and draw(st.sampled_from([True, True, False])):
+            gname, j, base = draw(st.sampled_from(refs))
+            case["twin"] = {"glyph": gname, "comp": j, "base": base, "master": draw(st.integers(0, nm - 1))}
+        return case
     # variable-sparse
     inner = {"name": "inner", "width": 400, "unicodes": [], "contours": [draw(gen.contour(("line",), allow_open=False, degenerate=False))]}
     outer = {"name": "outer", "width": 400, "unicodes": [], "components": [{"base": "inner", "t": [1, 0, 0, 1, draw(st.integers(-40, 40)), draw(st.integers(-40, 40))]}]}
@@ -379,10 +391,24 @@ def run_masters_union(case, ctx):
     union = set().union(*map(set, lists))
     from fontTools.cu2qu.errors import Error as Cu2QuError
 
+    twin = case.get("twin")  # {"glyph": composite, "comp": index, "master": k}: in that master the component names a non-skipped twin of the skipped base
+
+    def master_spec(k):
+        sp = F.perturb(spec, k, case["amp"])
+        if twin:
+            for g in list(sp["glyphs"]):
+                if g["name"] == twin["base"]:
+                    sp["glyphs"].append(dict(copy.deepcopy(g), name=twin["base"] + ".twin", unicodes=[]))
+            if k == twin["master"]:
+                for g in sp["glyphs"]:
+                    if g["name"] == twin["glyph"]:
+                        g["components"][twin["comp"]]["base"] = twin["base"] + ".twin"
+        return sp
+
     def build(with_lists):
         fonts = []
         for k, lst in enumerate(lists):
-            sp = F.perturb(spec, k, case["amp"])
+            sp = master_spec(k)
             if with_lists and lst:
                 sp.setdefault("lib", {})["public.skipExportGlyphs"] = list(lst)
             fonts.append(S.build(sp, module))
@@ -403,6 +429,28 @@ def run_masters_union(case, ctx):
         for n in g.getGlyphOrder():
             if g.reader["glyf"] != r.reader["glyf"] or g["hmtx"][n] != r["hmtx"][n]:
                 raise Violation("master differs from the compile with the explicit union of the skip lists", master=i, glyph=n)
+    # absolute anchor: every master's remaining glyphs render their own source (skipping only inlines, it does not reshape)
+    from ufoverif.checks import c02 as _c02
+
+    upm = spec["info"].get("unitsPerEm", 1000)
+    for i, g in enumerate(got):
+        gi_m = R.glyph_index(master_spec(i))
+        glyf = g["glyf"]
+        memo = {}
+        for n in g.getGlyphOrder():
+            if n not in gi_m:
+                continue
+            src = [c_ for c_ in (R.cycle(pts) for pts, rev in R.resolve(gi_m, n)) if c_ is not None]
+            drawn = _c02.render_tt(glyf, n)
+            if len(src) != len(drawn):
+                raise Violation("a remaining glyph of a master lost or gained contours when glyphs were skipped", master=i, glyph=n, got=len(drawn), expected=len(src), lists=lists, twin=twin)
+            tolm = _c02.tol_of(glyf, gi_m, n, 0.001 * upm, memo) + 0.15
+            bad = _c02.match_contours([geom.flatten_cycle(c_, 0.05) for c_ in src], [geom.flatten_cycle(c_, 0.05) for c_ in drawn], tolm)
+            if bad is not None:
+                raise Violation("a remaining glyph of a master does not render its source when glyphs are skipped", master=i, glyph=n, tolerance=tolm, worst_point=bad[1], lists=lists, twin=twin)
+            ctx.count("master-glyphs-compared-with-their-source")
+    if twin:
+        ctx.label("masters-disagree-on-a-skipped-component")
     if len([l for l in lists if l]) >= 1 and lists[-1] != sorted(union):
         ctx.label("last-ufo-omits-names")
     used = {c["base"] for g in spec["glyphs"] if g["name"] not in union for c in g.get("components", [])}
